@@ -2,6 +2,7 @@ package languages
 
 import (
 	"fmt"
+	"sort"
 	"strings"
 
 	"github.com/grafana/cog/internal/ast"
@@ -170,8 +171,16 @@ func (generator *ConverterGenerator) FromBuilder(context Context, builder ast.Bu
 		return generator.convertOption(context, converter, option)
 	})
 
-	for _, opts := range generator.listOfDisjunctionOptions {
-		converter.Mappings = append(converter.Mappings, generator.convertListOfDisjunctionOptions(context, converter, opts))
+	// paths are visited in a defined order: the generated converter must not
+	// depend on the iteration order of the map
+	paths := make([]string, 0, len(generator.listOfDisjunctionOptions))
+	for path := range generator.listOfDisjunctionOptions {
+		paths = append(paths, path)
+	}
+	sort.Strings(paths)
+
+	for _, path := range paths {
+		converter.Mappings = append(converter.Mappings, generator.convertListOfDisjunctionOptions(context, converter, generator.listOfDisjunctionOptions[path]))
 	}
 
 	converter.Mappings = tools.Filter(converter.Mappings, func(mapping ConversionMapping) bool {
